@@ -27,13 +27,13 @@ type op struct {
 func TestC01(t *testing.T) {
 	rec := mon.Open("C01")
 	defer rec.Finish(t)
-	n := rec.N(4000, 400000)
+	n := rec.N(16000, 400000)
 	for c := 0; c < n; c++ {
 		if rec.Mine(c) {
 			runHistory(rec, c, false)
 		}
 	}
-	long := rec.N(8, 2000)
+	long := rec.N(16, 2000)
 	for c := 0; c < long; c++ {
 		if rec.Mine(c) {
 			runHistory(rec, 1000000+c, true)
